@@ -19,21 +19,25 @@ var ErrInjected = errors.New("injected I/O fault")
 
 // World owns the switches shared by FS and Meta.
 type World struct {
-	Armed     bool // crash points enabled
-	Crashed   bool
-	Faults    int  // remaining injected faults
-	Sticky    bool // a fault repeats on every later call of the same kind until ClearFaults
-	stuck     map[string]bool
-	Calls     int
-	CrashAt   string // label of the call at which the crash was taken
-	FaultLog  []string
-	NoCrashIn map[string]bool
+	Armed       bool // crash points enabled
+	Crashed     bool
+	Faults      int  // remaining injected faults
+	Sticky      bool // a fault repeats on every later call of the same kind until ClearFaults
+	stuck       map[string]bool
+	Calls       int
+	CrashAt     string // label of the call at which the crash was taken
+	FaultLog    []string
+	NoCrashIn   map[string]bool
+	SchedPoints bool // every environment call is a schedule point (schedule harnesses)
 }
 
 func NewWorld() *World { return &World{stuck: map[string]bool{}} }
 
 // point is called at the start of every environment call.
 func (w *World) point(label string) {
+	if w.SchedPoints {
+		vrt.Sched("env") // a place where the schedule exploration may switch goroutines
+	}
 	w.Calls++
 	if w.Crashed {
 		// the process is gone: nothing after the crash may happen
